@@ -312,10 +312,12 @@ TextLen(toks) == TextLenR(toks, 1)
 (* 4. CANONICAL FORM (tlcrc32.go; docs: one line, no braces, single spaces, *)
 (* "[ x ]" spacing, % kept only before a name that does not start with a   *)
 (* lower-case letter, arithmetic replaced by its value).                   *)
-(* ArithInBodyByValue: inside a repetition body the documented rule        *)
-(* (arithmetic replaced by its value) is applied (TRUE) or the literals    *)
-(* are kept as written, "1 + 2" (FALSE).                                   *)
-CONSTANT ArithInBodyByValue
+(* Inside a repetition body a field is written in its source spelling      *)
+(* (parentheses, %, ! kept - as the code has it).  Parameter v: TRUE = the *)
+(* documented rule "arithmetic replaced by its value" also holds there     *)
+(* (this is THE canonical form of the specification); FALSE = the literals *)
+(* are kept as written, "1 + 2" (what the code hashes; used only to        *)
+(* classify a deviation).                                                  *)
 
 CanonPercent(t) == t.b /\ (t.nm = "" \/ ~LowerStart(t.nm))
 RECURSIVE CanonType(_)
@@ -324,36 +326,39 @@ CanonType(t) == (IF CanonPercent(t) THEN "%" ELSE "") \o QName(t.ns, t.nm)
                 \o Join([i \in 1..Len(t.as) |-> " " \o CanonArg(t.as[i])], "")
 
 (* the "source" spelling used inside repetition bodies *)
-ArithStr(ns) == IF ArithInBodyByValue THEN Dec(NSum(ns)) ELSE Join([i \in 1..Len(ns) |-> Dec(ns[i])], " + ")
-RECURSIVE StrType(_)
-StrArg(a) == IF a.ar # <<>> THEN ArithStr(a.ar) ELSE StrType(a.t[1])
-StrType(t) == (IF t.b THEN "%" ELSE "")
-              \o (IF t.as = <<>> THEN QName(t.ns, t.nm)
-                  ELSE "(" \o QName(t.ns, t.nm) \o Join([i \in 1..Len(t.as) |-> " " \o StrArg(t.as[i])], "") \o ")")
+ArithStr(ns, v) == IF v THEN Dec(NSum(ns)) ELSE Join([i \in 1..Len(ns) |-> Dec(ns[i])], " + ")
+RECURSIVE StrType(_, _)
+StrArg(a, v) == IF a.ar # <<>> THEN ArithStr(a.ar, v) ELSE StrType(a.t[1], v)
+StrType(t, v) == (IF t.b THEN "%" ELSE "")
+                 \o (IF t.as = <<>> THEN QName(t.ns, t.nm)
+                     ELSE "(" \o QName(t.ns, t.nm) \o Join([i \in 1..Len(t.as) |-> " " \o StrArg(t.as[i], v)], "") \o ")")
 MaskStr(f) == IF f.m = <<>> THEN "" ELSE f.m[1].n \o "." \o Dec(f.m[1].bit) \o "?"
 NameStr(f) == IF f.n = "" THEN "" ELSE f.n \o ":"
 
-RECURSIVE CanonRep(_)
+RECURSIVE CanonRep(_, _)
 (* inside a body: a nested repetition is written  name:scale*[ ... ]  (its mask is not part of the form), *)
 (* any other field in its source spelling                                                                *)
-BodyItem(f) == IF f.rep # <<>> THEN NameStr(f) \o CanonRep(f.rep[1])
-               ELSE NameStr(f) \o MaskStr(f) \o (IF f.ex THEN "!" ELSE "") \o StrType(f.t[1])
-CanonRep(r) == (CASE r.sk = "none" -> ""
-                  [] r.sk = "name" -> r.sn \o "*"
-                  [] r.sk = "ar"   -> Dec(NSum(r.sa)) \o "*")
-               \o "[" \o Join([i \in 1..Len(r.body) |-> " " \o BodyItem(r.body[i])], "") \o " ]"
+BodyItem(f, v) == IF f.rep # <<>> THEN NameStr(f) \o CanonRep(f.rep[1], v)
+                  ELSE NameStr(f) \o MaskStr(f) \o (IF f.ex THEN "!" ELSE "") \o StrType(f.t[1], v)
+CanonRep(r, v) == (CASE r.sk = "none" -> ""
+                     [] r.sk = "name" -> r.sn \o "*"
+                     [] r.sk = "ar"   -> Dec(NSum(r.sa)) \o "*")
+                  \o "[" \o Join([i \in 1..Len(r.body) |-> " " \o BodyItem(r.body[i], v)], "") \o " ]"
 
-CanonField(f) == NameStr(f) \o MaskStr(f) \o (IF f.rep # <<>> THEN CanonRep(f.rep[1]) ELSE CanonType(f.t[1]))
+CanonFieldV(f, v) == NameStr(f) \o MaskStr(f) \o (IF f.rep # <<>> THEN CanonRep(f.rep[1], v) ELSE CanonType(f.t[1]))
+CanonField(f) == CanonFieldV(f, TRUE)
 
 (* Canon(c): the words of the canonical form; CanonText joins them with single spaces *)
-Canon(c) ==
+CanonV(c, v) ==
      <<QName(c.ns, c.nm)>>
   \o [i \in 1..Len(c.ta) |-> c.ta[i].n \o (IF c.ta[i].nat THEN ":#" ELSE ":Type")]
   \o (IF c.bi THEN <<"?">> ELSE <<>>)
-  \o [i \in 1..Len(c.fs) |-> CanonField(c.fs[i])]
+  \o [i \in 1..Len(c.fs) |-> CanonFieldV(c.fs[i], v)]
   \o <<"=">>
   \o (IF c.fn THEN <<CanonType(c.res[1])>> ELSE <<QName(c.dns, c.dnm)>> \o c.da)
+Canon(c) == CanonV(c, TRUE)
 CanonText(c) == Join(Canon(c), " ")
+CanonTextAsCoded(c) == Join(CanonV(c, FALSE), " ")      \* classification of a known deviation only
 
 (* the canonical listing: modifiers ordered by their flag value, the effective tag attached to the name, *)
 (* template arguments in braces; tagHex = the effective tag                                              *)
@@ -365,14 +370,15 @@ InsertSorted(s, m) == IF s = <<>> THEN <<m>>
                       ELSE s \o <<m>>
 RECURSIVE SortMods(_, _)
 SortMods(ms, i) == IF i = 0 THEN <<>> ELSE InsertSorted(SortMods(ms, i - 1), ms[i])
-ListingLine(c, tagHex) ==
+ListingLineV(c, tagHex, v) ==
      Join([i \in 1..Len(c.mods) |-> "@" \o SortMods(c.mods, Len(c.mods))[i] \o " "], "")
   \o QName(c.ns, c.nm) \o "#" \o tagHex \o " "
   \o Join([i \in 1..Len(c.ta) |-> "{" \o c.ta[i].n \o (IF c.ta[i].nat THEN ":#" ELSE ":Type") \o "} "], "")
   \o (IF c.bi THEN "? " ELSE "")
-  \o Join([i \in 1..Len(c.fs) |-> CanonField(c.fs[i]) \o " "], "")
+  \o Join([i \in 1..Len(c.fs) |-> CanonFieldV(c.fs[i], v) \o " "], "")
   \o "= "
   \o (IF c.fn THEN CanonType(c.res[1]) ELSE Join(<<QName(c.dns, c.dnm)>> \o c.da, " "))
+ListingLine(c, tagHex) == ListingLineV(c, tagHex, TRUE)
 ListingHeader == <<"int#a8509bda ? = Int", "long#22076cba ? = Long", "float#824dab22 ? = Float",
                    "double#2210c154 ? = Double", "string#b5286e24 ? = String">>
 ListingSkips == {"int", "long", "float", "double", "string"}      \* combinators with these names are not listed again
